@@ -17,6 +17,8 @@ import EinoV.Proofs.C17
 import EinoV.Proofs.C17Late
 import EinoV.Model.C17Utils
 import EinoV.Proofs.C17Utils
+import EinoV.Model.C17Readers
+import EinoV.Proofs.C17Readers
 import EinoV.Gen.FactsC17
 import EinoV.Expected.C17
 
@@ -660,5 +662,68 @@ theorem stale_field_breaks :
     invoke exFacts (mixedTools { freshPerCall := false } exParse [⟨"p0", "scale", "n2u"⟩] calls [0] exMixed)
       none true calls id [0]
       = .ok [⟨"c0", "oslo/2/F"⟩] := by decide
+
+/-! ## family `readers`: several consumers of the node's stream, each concatenating
+
+  The chunks of a stream are shared by all its copies.  `readK CF k cells` = `k` readers, one
+  after the other, each receiving every chunk of the store `cells` (in the stream's order)
+  and concatenating (`collect`); a concatenation that does not allocate its result writes
+  it back into the store.  Model: EinoV/Model/C17Readers.lean. -/
+
+def genConcatFacts : ConcatFacts :=
+  { arrayAllocates := FactsC17.concatArrayAllocates, msgsAllocates := FactsC17.concatMessagesAllocates }
+
+/-- Source fact tie: `concatMessageArray` and `ConcatMessages` build their results in memory
+    of their own and assign nothing through their arguments. -/
+theorem concat_facts_match : genConcatFacts = Expected.C17.concatFacts := by decide
+
+theorem genConcatFacts_good : genConcatFacts.Good := ⟨by decide, by decide⟩
+
+/-- **readers_leave_chunks_alone.** For every chunk sequence and every number of readers:
+    each reader's concatenation is the concatenation of the chunks as they were sent, and
+    the chunks are afterwards what they were. -/
+theorem readers_leave_chunks_alone (k : Nat) (cells : Cells) :
+    readK genConcatFacts k cells = (List.replicate k (collect cells), cells) :=
+  readK_good genConcatFacts_good k cells
+
+/-- **every_reader_agrees.** `tools_stream_agrees` for any number of readers: under its
+    hypotheses, whatever interleaving `m` of the n source streams the (shared) stream
+    delivers, each of the `k` readers concatenates it to exactly the list Invoke returns. -/
+theorem every_reader_agrees (calls : List Call) (hne : calls ≠ []) (cs : Call → List String)
+    (hall : ∀ c ∈ calls, answerS tools handler c = some (.ok (cs c)) ∧ cs c ≠ [])
+    (hcoh : ∀ c ∈ calls, Coherent (pick tools handler c))
+    (seen seen' : Nat → Nat) (σ σ' : List Nat)
+    (hσ : σ.Perm (List.range calls.length)) (hσ' : σ'.Perm (List.range calls.length)) (k : Nat) :
+    ∃ srcs, stream genFacts tools handler true calls seen' σ' = .ok srcs ∧
+      invoke genFacts tools handler true calls seen σ
+        = .ok (calls.map fun c => ⟨c.id, joinS (cs c)⟩) ∧
+      ∀ m, Interleaving srcs m →
+        readK genConcatFacts k m
+          = (List.replicate k (.ok ((calls.map fun c => (⟨c.id, joinS (cs c)⟩ : Msg)).map some)), m) := by
+  obtain ⟨srcs, hs, hi, hm⟩ := tools_stream_agrees tools handler calls hne cs hall hcoh seen seen' σ σ' hσ hσ'
+  refine ⟨srcs, hs, hi, fun m him => ?_⟩
+  rw [readers_leave_chunks_alone, hm m him]
+
+/-- non-vacuity: three readers of the merged stream of `exCalls` -/
+example : (match stream exFacts exTools none true exCalls id [1, 2, 0] with
+    | .ok srcs => (readK Expected.C17.concatFacts 3 (mergeBy [1, 0, 1, 2] srcs)).1.map (·.toOption)
+    | _ => [])
+    = List.replicate 3 (some [some ⟨"c0", "Ax"⟩, some ⟨"c1", "<y>"⟩, some ⟨"c2", "Az"⟩]) := by decide
+
+/-- (negation witness) `concatMessageArray` building its result in the first chunk's list:
+    the first reader is right, the second finds the complete answers in chunk 0 and the
+    chunks again after it — doubled outputs. -/
+theorem inplace_array_breaks :
+    (readK { Expected.C17.concatFacts with arrayAllocates := false } 2
+      [[some ⟨"c0", "A"⟩, none], [none, some ⟨"c1", "x"⟩], [none, some ⟨"c1", "y"⟩]]).1.map (·.toOption)
+      = [some [some ⟨"c0", "A"⟩, some ⟨"c1", "xy"⟩], some [some ⟨"c0", "A"⟩, some ⟨"c1", "xyxy"⟩]] := by decide
+
+/-- (negation witness) `ConcatMessages` building its result in the first message: the first
+    message of a multi-chunk answer is rewritten in its chunk, the second reader gets it
+    followed by the other chunks again. -/
+theorem inplace_message_breaks :
+    (readK { Expected.C17.concatFacts with msgsAllocates := false } 2
+      [[some ⟨"c0", "A"⟩, none], [none, some ⟨"c1", "x"⟩], [none, some ⟨"c1", "y"⟩]]).1.map (·.toOption)
+      = [some [some ⟨"c0", "A"⟩, some ⟨"c1", "xy"⟩], some [some ⟨"c0", "A"⟩, some ⟨"c1", "xyy"⟩]] := by decide
 
 end EinoV.C17
